@@ -61,7 +61,7 @@ func init() {
 		},
 		NCases: func(tier string) int {
 			if tier == "thorough" {
-				return 2460000
+				return 1845000
 			}
 			return 58000
 		},
